@@ -17,11 +17,11 @@ from gvmon.monitors import contracts
 LEVEL = "fault_enumeration"
 RULE = ("GFF3 file databases with a depth-4 hierarchy, multi-parent and id-less features; histories over the alphabet "
         "{A: update(create_unique batch), B: update(merge batch), C: update(replace batch), E: update([]), D: delete, "
-        "R: add_relation, O: close/reopen}: all words of length <= 3 (quick) / <= 5 (thorough), random words to length 12; "
+        "R: add_relation, O: close/reopen, M: store the outputs of merge() through update}: all words of length <= 3 (quick) / <= 5 (thorough), random words to length 12; "
         "fault cases: an update of n features whose one-shot source raises at position k for every k in 0..n, "
         "checklines 0 and 1; non-trivial history = contains an update after a delete or reopen; distinct by (base salt, word) "
         "and by (n, k, checklines)")
-REQUIRED = ["spawn-history steps compared", "bulk deletes (hundreds of ids in one call)", "iteration order compared after a step", "live-handle comparisons", "history steps applied", "content dumps compared with the model", ".bak compared with pre-operation content",
+REQUIRED = ["second-handle comparisons", "look-ups with Feature objects fetched before the step", "updates with hand-built Feature objects", "merge() outputs stored through update", "spawn-history steps compared", "bulk deletes (hundreds of ids in one call)", "iteration order compared after a step", "live-handle comparisons", "history steps applied", "content dumps compared with the model", ".bak compared with pre-operation content",
             "auto-generated keys checked for freshness", "faults injected", "faults injected mid-import (beyond the peek window)",
             "reopen steps", "failpoints fired inside gffutils", "metamorphic comparisons (batched updates vs single import)",
             "metamorphic comparisons (delete undoes the last update)"]
@@ -36,7 +36,7 @@ ASSUMPTIONS = [
 ]
 EXHAUSTIVE_NOTE = "all words over the 7-operation alphabet up to the depth bound; all fault positions 0..n for n in 1..5; failpoints at the 1st/2nd/3rd/5th call of 9 internal functions during an update"
 QUICK_SHARDS = 4
-ALPHABET = "ABCEDRO"
+ALPHABET = "ABCEDROM"
 _STATES = set()
 COLS = ("seqid", "source", "featuretype", "start", "end", "score", "strand", "frame")
 
@@ -101,7 +101,7 @@ def derive(op, model, step, salt):
         batch = [rec("mRNA", 10 * step + 1, 10 * step + 50, [["ID", [nid]], ["Parent", [pick() or "ghost"]]]),
                  rec("exon", 10 * step + 1, 10 * step + 20, [["Parent", [nid]]]),
                  # a key base that did not exist when the database was created
-                 rec("tRNA", 10 * step + 2, 10 * step + 9, [["Note", ["no id %d" % step]]])]
+                 rec("tRNA", 10 * step + 2, 10 * step + 9, [["Note", ["no id %d" % step]]], seqid="chrNew%d" % (step % 3))]
         k = pick_own()
         if k:
             batch.append(rec("match", 7000 + step, 7100 + step, [["ID", [k]], ["Note", ["dup%d" % step]]]))
@@ -168,6 +168,8 @@ def derive(op, model, step, salt):
         return {"op": "noop"}
     if op == "O":
         return {"op": "reopen"}
+    if op == "M":
+        return {"op": "store_merged"}
     raise ValueError(op)
 
 
@@ -234,11 +236,19 @@ def history(ctx, case):
     salt, word = case["salt"], case["word"]
     db, dbfn, model, text = build_base(ctx, salt)
     trace = []
+    other = None
+    handles = {}
     try:
         d = model.compare(dbdump.dump(dbfn))
         if d:
             ctx.violation(case, dict(d, step=-1, note="base import differs from the model", base=text))
             return
+        # a second, long-lived FeatureDB object on the same file (never reopened); primed with every kind of read
+        other = gffutils.FeatureDB(dbfn)
+        if not live_agrees(ctx, case, other, dbdump.dump(dbfn), -1, trace, who="second handle"):
+            return
+        list(other.region(seqid="no_such_seqid", start=1, end=10))
+        handles = {f.id: f for f in db.all_features()}
         for step, op in enumerate(word):
             args = derive(op, model, step, salt)
             trace.append(args if args["op"] != "update" else dict(args, batch=[line(r) for r in args["batch"]]))
@@ -299,6 +309,26 @@ def history(ctx, case):
                     db.conn.close()
                     db = gffutils.FeatureDB(dbfn)
                     ctx.mon("reopen steps")
+                elif args["op"] == "store_merged":
+                    # merge() hands out generated keys from the live counters; storing its outputs makes them persistent
+                    srcs = list(db.features_of_type("exon", order_by=("seqid", "strand", "start")))
+                    merged = [m for m in db.merge(srcs) if getattr(m, "children", None)]
+                    recs = []
+                    for m in merged:
+                        recs.append({"cols": {"seqid": m.seqid, "source": m.source, "featuretype": m.featuretype, "start": m.start,
+                                              "end": m.end, "score": m.score, "strand": m.strand, "frame": m.frame},
+                                     "attrs": [[k, list(m.attributes[k])] for k in m.attributes.keys()]})
+                        base, _, n = m.id.rpartition("_")
+                        if n.isdigit():
+                            # the statement: such a key continues the numbering and is never handed out again
+                            if m.id in model.ever:
+                                ctx.violation(case, {"why": "merge() handed out the key %r that was handed out earlier" % m.id, "trace": trace})
+                                return
+                            model.counters[base] = max(model.counters.get(base, 0), int(n))
+                    if merged:
+                        db.update(merged, merge_strategy="error", make_backup=True)
+                        model.update(recs, "error")
+                        ctx.mon("merge() outputs stored through update")
             except Exception as ex:
                 ctx.violation(case, {"why": "step %d (%s) raised %r" % (step, args["op"], ex), "trace": trace, "base": text})
                 return
@@ -341,19 +371,64 @@ def history(ctx, case):
             # the live FeatureDB object must agree with the file it just changed
             if not live_agrees(ctx, case, db, after, step, trace):
                 return
+            # ... and so must another FeatureDB object that has been open on that file all along
+            if not live_agrees(ctx, case, other, after, step, trace, who="second handle"):
+                return
+            # Feature objects fetched before this step are still valid keys: db[f] is the feature now stored under f.id
+            if not stale_handles(ctx, case, db, handles, after, step, trace):
+                return
+            handles.update({f.id: f for f in db.all_features()})
     finally:
-        try:
-            db.conn.close()
-        except Exception:
-            pass
+        for h in (db, other):
+            try:
+                h.conn.close()
+            except Exception:
+                pass
         cleanup(dbfn)
 
 
-def live_agrees(ctx, case, db, dump, step, trace):
+def stale_handles(ctx, case, db, handles, dump, step, trace):
+    import gffutils
+
+    byid = {f["id"]: f for f in dump["features"]}
+    for k, h in list(handles.items())[:40]:
+        ctx.mon("look-ups with Feature objects fetched before the step")
+        try:
+            g = db[h]
+        except gffutils.FeatureNotFoundError:
+            if k in byid:
+                ctx.violation(case, {"why": "db[<Feature fetched earlier>] raised FeatureNotFoundError although its id is stored", "id": k,
+                                     "step": step, "trace": trace})
+                return False
+            handles.pop(k, None)
+            continue
+        except Exception as ex:
+            ctx.violation(case, {"why": "db[<Feature fetched earlier>] raised %r" % (ex,), "id": k, "step": step, "trace": trace})
+            return False
+        if k not in byid:
+            ctx.violation(case, {"why": "db[<Feature fetched earlier>] returned a feature although that id is no longer stored",
+                                 "id": k, "returned": g.id, "step": step, "trace": trace})
+            return False
+        if g.id != k or (g.start, g.end, g.featuretype) != (byid[k]["start"], byid[k]["end"], byid[k]["featuretype"]):
+            ctx.violation(case, {"why": "db[<Feature fetched earlier>] returned another feature than the one stored under its id",
+                                 "id": k, "returned": [g.id, g.start, g.end], "stored": [byid[k]["start"], byid[k]["end"]],
+                                 "step": step, "trace": trace})
+            return False
+    return True
+
+
+def live_agrees(ctx, case, db, dump, step, trace, who="the handle that made the change"):
     """Look-ups, iteration and summaries through the open handle == the content read independently from the file."""
     byid = {f["id"]: f for f in dump["features"]}
     try:
-        ctx.mon("live-handle comparisons")
+        ctx.mon("live-handle comparisons" if who != "second handle" else "second-handle comparisons")
+        for sid in sorted(set(g["seqid"] for g in byid.values())):
+            hits = sorted(f.id for f in db.region(seqid=sid))
+            want = sorted(k for k, g in byid.items() if g["seqid"] == sid)
+            if hits != want:
+                ctx.violation(case, {"why": "region(seqid=%r) through an open handle (%s) differs from the file" % (sid, who),
+                                     "live": hits, "stored": want, "step": step, "trace": trace})
+                return False
         for k in sorted(byid):
             g = byid[k]
             f = db[k]
@@ -512,8 +587,22 @@ def metamorphic(ctx, case):
                     db.conn.close()
                     db = gffutils.FeatureDB(inc)
                     ctx.mon("reopen steps")
-                how = (case["seed"] + i) % 3
-                if how == 0:
+                how = (case["seed"] + i) % 4
+                if how == 3:
+                    # hand-built Feature objects (they carry the library's default dialect, not the file's)
+                    import gffutils as _g
+                    from gffutils.feature import feature_from_line
+                    built = []
+                    for l in b.splitlines():
+                        if not l:
+                            continue
+                        f0 = feature_from_line(l)
+                        built.append(_g.Feature(seqid=f0.seqid, source=f0.source, featuretype=f0.featuretype, start=f0.start, end=f0.end,
+                                                score=f0.score, strand=f0.strand, frame=f0.frame,
+                                                attributes={k: list(f0.attributes[k]) for k in f0.attributes.keys()}))
+                    db.update(built, make_backup=False)
+                    ctx.mon("updates with hand-built Feature objects")
+                elif how == 0:
                     db.update(b, from_string=True, make_backup=False)
                 elif how == 1:
                     p = ctx.tmp(".batch")
@@ -532,6 +621,17 @@ def metamorphic(ctx, case):
             ctx.violation(case, {"why": "metamorphic route raised %r" % (ex,), "fmt": fmt, "batches": batches})
             return
         a, b = dbdump.dump(one), snapshots[-1]
+        # the database keeps the dialect it was created with, whatever the updates' inputs looked like
+        reopened = gffutils.FeatureDB(inc)
+        same_fmt = reopened.dialect.get("fmt") == snapshots[0]["meta"][0][0] and True
+        d0 = dict((k, v) for k, v in snapshots[0]["meta"][0][0]) if isinstance(snapshots[0]["meta"][0][0], list) else {}
+        dialect_now = dict(reopened.dialect)
+        reopened.conn.close()
+        if d0 and (dialect_now.get("fmt"), dialect_now.get("keyval separator")) != (d0.get("fmt"), d0.get("keyval separator")):
+            ctx.violation(case, {"why": "the database's dialect changed through updates (observed after reopening)", "fmt": fmt,
+                                 "created_with": [d0.get("fmt"), d0.get("keyval separator")],
+                                 "now": [dialect_now.get("fmt"), dialect_now.get("keyval separator")]})
+            return
         ctx.mon("metamorphic comparisons (batched updates vs single import)")
         fa, fb = by_id(a), by_id(b)
         if fa != fb:
